@@ -16,6 +16,7 @@ package main
 import (
 	"fmt"
 	"os"
+	"strings"
 	"time"
 
 	c "verifharness/common"
@@ -71,7 +72,11 @@ type acqT struct {
 	q int
 }
 
+var tSetup, tFinish time.Duration
+
 func startRes(k *ResCase) *resRun {
+	t0 := time.Now()
+	defer func() { tSetup += time.Since(t0) }()
 	x, err := newResExec(&k.Cfg)
 	if err != nil {
 		fmt.Fprintln(os.Stderr, "resource set-up failed:", err)
@@ -127,6 +132,8 @@ func coqRes(k *ResCase) string {
 }
 
 func finishRes(o *c.Out, rr *resRun) {
+	t0 := time.Now()
+	defer func() { tFinish += time.Since(t0) }()
 	rr.x.close()
 	k := rr.k
 	refusal, release := false, false
@@ -142,7 +149,7 @@ func finishRes(o *c.Out, rr *resRun) {
 		}
 		prev = s.Counts
 	}
-	o.Count("res:gen=" + k.Gen)
+	o.Count("res:gen=" + strings.SplitN(k.Gen, ":", 2)[0])
 	o.Count(fmt.Sprintf("res:quotas=%d", len(k.Cfg.Rows)))
 	o.Count(fmt.Sprintf("res:steps=%02d-%02d", len(k.Steps)/10*10, len(k.Steps)/10*10+9))
 	idx := o.Case("res", coqRes(k), k, refusal && release)
@@ -658,7 +665,17 @@ func genEngHistory(o *c.Out, r *c.Rng) {
 	if len(k.Cfg.Rows) > 1 && r.Chance(2, 3) {
 		k.Cfg.Limiter = len(k.Cfg.Rows) - 1
 	}
-	k.Cfg.Style = c.Pick(r, []string{"429", "429", "early", "forward"})
+	k.Cfg.Style = c.Pick(r, []string{"429", "429", "early", "forward", "two"})
+	k.Cfg.Limiter2 = -1
+	if k.Cfg.Style == "two" {
+		// a second, unrelated root quota on the same host, declared last
+		k.Cfg.OneFile = true
+		k.Cfg.Rows = append(k.Cfg.Rows, QRow{Max: int64(r.Range(1, 3)), TTLSec: int64(r.Range(1, 3)), GCSec: int64(r.Range(1, 3)), Parent: -1})
+		k.Cfg.Limiter2 = len(k.Cfg.Rows) - 1
+		if r.Chance(1, 3) { // or the other way round: the unrelated root first in the flow
+			k.Cfg.Limiter, k.Cfg.Limiter2 = k.Cfg.Limiter2, k.Cfg.Limiter
+		}
+	}
 	er := startEng(k)
 	n := r.Range(2, 5)
 	next := 0
@@ -708,7 +725,11 @@ func genEngHistory(o *c.Out, r *c.Rng) {
 		er.do(EStep{Kind: "adv", Dt: (mt+mg)*sec + sec + sec/2})
 	}
 	np := int64(1 << 30)
-	for _, x := range k.Cfg.chain(k.Cfg.Limiter) {
+	guard := k.Cfg.chain(k.Cfg.Limiter)
+	if k.Cfg.Style == "two" {
+		guard = append(guard, k.Cfg.chain(k.Cfg.Limiter2)...)
+	}
+	for _, x := range guard {
 		if k.Cfg.Rows[x].Max < np {
 			np = k.Cfg.Rows[x].Max
 		}
@@ -720,6 +741,141 @@ func genEngHistory(o *c.Out, r *c.Rng) {
 		er.do(EStep{Kind: "req", R: 100 + int(i), Probe: true})
 	}
 	finishEng(o, er)
+}
+
+
+// fixed boundary histories that run first (and give minimal replays)
+func genCorpus(o *c.Out) {
+	huge := hugeGC
+	script := func(tag string, cfg Cfg, f func(rr *resRun)) {
+		k := &ResCase{Gen: "corpus:" + tag, Cfg: cfg}
+		rr := startRes(k)
+		f(rr)
+		finishRes(o, rr)
+	}
+	lim := func(rr *resRun, r, q int, probe bool) int {
+		rr.op(r, "getq", q, probe)
+		rr.op(r, "inc", q, probe)
+		return rr.op(r, "allowed", q, probe)
+	}
+	// three abandoned transactions expire; one GC pass must free all three slots
+	for _, n := range []int{2, 3, 4, 5} {
+		n := n
+		script("abandoned-expire", Cfg{Rows: []QRow{{Max: int64(n), TTLSec: 1, GCSec: huge, Parent: -1}}}, func(rr *resRun) {
+			for i := 0; i < n; i++ {
+				lim(rr, i, 0, false)
+			}
+			rr.do(RStep{Kind: "tick", Dt: 2*sec + sec/2})
+			rr.do(RStep{Kind: "gc", Q: 0})
+			for i := 0; i < n; i++ {
+				lim(rr, 100+i, 0, true)
+			}
+		})
+	}
+	// the expiry edge: ttl + 10 ms, closed on the left (expiry <= now is collected)
+	for _, d := range []int64{-1, 0, 1} {
+		d := d
+		script("expiry-edge", Cfg{Rows: []QRow{{Max: 1, TTLSec: 1, GCSec: huge, Parent: -1}}}, func(rr *resRun) {
+			lim(rr, 0, 0, false)
+			rr.do(RStep{Kind: "tick", Dt: sec + d})
+			rr.do(RStep{Kind: "gc", Q: 0})
+			lim(rr, 1, 0, false)
+			rr.do(RStep{Kind: "tick", Dt: deltaNs - d - 1})
+			rr.do(RStep{Kind: "gc", Q: 0})
+			lim(rr, 2, 0, false)
+			rr.do(RStep{Kind: "tick", Dt: 1})
+			rr.do(RStep{Kind: "gc", Q: 0})
+			lim(rr, 100, 0, true)
+		})
+	}
+	// max boundary: max-1 / max / max+1 requests, release one, next is admitted
+	for _, mx := range []int64{1, 2, 3} {
+		mx := mx
+		script("max-edge", Cfg{Rows: []QRow{{Max: mx, TTLSec: 2, GCSec: huge, Parent: -1}}}, func(rr *resRun) {
+			for i := 0; i <= int(mx); i++ {
+				lim(rr, i, 0, false)
+			}
+			rr.op(0, "getq", 0, false)
+			rr.op(0, "dec", 0, false)
+			rr.op(0, "finish", 0, false)
+			rr.op(0, "dec", 0, false) // a second Dec of the same request is a no-op
+			lim(rr, 100, 0, true)
+			lim(rr, 101, 0, true)
+		})
+	}
+	// a drop releases the first-touched chain only; the second quota waits for its expiry
+	script("drop-first-chain", Cfg{Rows: []QRow{{Max: 2, TTLSec: 1, GCSec: huge, Parent: -1}, {Max: 1, TTLSec: 1, GCSec: huge, Parent: 0},
+		{Max: 1, TTLSec: 2, GCSec: huge, Parent: -1}}}, func(rr *resRun) {
+		lim(rr, 0, 1, false)
+		lim(rr, 0, 2, false)
+		rr.op(0, "drop", 0, false)
+		lim(rr, 1, 1, false)
+		lim(rr, 1, 2, false)
+		rr.op(0, "drop", 0, false) // nothing is associated any more
+		rr.do(RStep{Kind: "tick", Dt: 2*sec + deltaNs})
+		rr.do(RStep{Kind: "gc", Q: 2})
+		lim(rr, 100, 2, true)
+	})
+	// drop, re-associate with another quota, drop again: the association is popped each time
+	script("drop-pops", Cfg{Rows: []QRow{{Max: 1, TTLSec: 2, GCSec: huge, Parent: -1}, {Max: 1, TTLSec: 2, GCSec: huge, Parent: -1}}}, func(rr *resRun) {
+		lim(rr, 0, 0, false)
+		rr.op(0, "drop", 0, false)
+		lim(rr, 0, 1, false)
+		rr.op(0, "drop", 0, false)
+		lim(rr, 100, 1, true)
+		lim(rr, 101, 0, true)
+	})
+	// refused by the parent: the child slot is held until the early answer drops it
+	script("parent-refuses", Cfg{Rows: []QRow{{Max: 1, TTLSec: 2, GCSec: huge, Parent: -1}, {Max: 2, TTLSec: 2, GCSec: huge, Parent: 0}}}, func(rr *resRun) {
+		lim(rr, 0, 1, false)
+		lim(rr, 1, 1, false)
+		rr.op(1, "drop", 0, false)
+		rr.op(0, "getq", 1, false)
+		rr.op(0, "dec", 1, false)
+		rr.op(0, "finish", 0, false)
+		lim(rr, 100, 1, true)
+	})
+	// the same through the engine: abandoned transactions expire, the GC goroutine wakes once
+	for _, style := range []string{"429", "early", "forward"} {
+		for _, two := range []bool{false, true} {
+			k := &EngCase{}
+			k.Cfg.Cfg = Cfg{Rows: []QRow{{Max: 3, TTLSec: 1, GCSec: 2, Parent: -1}}}
+			if two {
+				k.Cfg.Cfg = Cfg{Rows: []QRow{{Max: 3, TTLSec: 1, GCSec: 2, Parent: -1}, {Max: 3, TTLSec: 1, GCSec: 2, Parent: 0}}}
+				k.Cfg.Limiter = 1
+			}
+			k.Cfg.Style = style
+			k.Cfg.Limiter2 = -1
+			er := startEng(k)
+			for i := 0; i < 4; i++ {
+				er.do(EStep{Kind: "req", R: i})
+			}
+			er.do(EStep{Kind: "resp", R: 0})
+			er.do(EStep{Kind: "req", R: 4})
+			er.do(EStep{Kind: "err", R: 1})
+			er.do(EStep{Kind: "req", R: 5})
+			er.do(EStep{Kind: "adv", Dt: 2 * sec})
+			for i := 0; i < 4; i++ {
+				er.do(EStep{Kind: "req", R: 100 + i, Probe: true})
+			}
+			finishEng(o, er)
+		}
+	}
+	// two unrelated quotas in one flow: the early answer (refused by the second) must free the first
+	{
+		k := &EngCase{}
+		k.Cfg.Cfg = Cfg{OneFile: true, Rows: []QRow{{Max: 1, TTLSec: 3, GCSec: 3, Parent: -1}, {Max: 1, TTLSec: 3, GCSec: 3, Parent: -1}}}
+		k.Cfg.Limiter, k.Cfg.Limiter2, k.Cfg.Style = 0, 1, "two"
+		er := startEng(k)
+		er.do(EStep{Kind: "req", R: 0}) // admitted by both
+		er.do(EStep{Kind: "req", R: 1}) // refused by the first
+		er.do(EStep{Kind: "err", R: 0}) // frees the first quota only
+		er.do(EStep{Kind: "req", R: 2}) // admitted by the first, refused by the second: early answer
+		er.do(EStep{Kind: "req", R: 3}) // the first quota must be free again
+		er.do(EStep{Kind: "adv", Dt: 7 * sec})
+		er.do(EStep{Kind: "req", R: 100, Probe: true})
+		finishEng(o, er)
+	}
 }
 
 // ------------------------------------------------------------------ main
@@ -758,10 +914,12 @@ func main() {
 	t0 := time.Now()
 	lap := func(what string) {
 		if os.Getenv("C02_TIMING") != "" {
-			fmt.Fprintf(os.Stderr, "%s: %v\n", what, time.Since(t0))
+			fmt.Fprintf(os.Stderr, "%s: %v (setup %v finish %v)\n", what, time.Since(t0), tSetup, tFinish)
 		}
 		t0 = time.Now()
 	}
+	genCorpus(o)
+	lap("corpus")
 	// all interleavings of two limiter-then-response programs, one and two levels
 	one := Cfg{Rows: []QRow{{Max: 1, TTLSec: 1, GCSec: hugeGC, Parent: -1}}}
 	two := Cfg{Rows: []QRow{{Max: 2, TTLSec: 2, GCSec: hugeGC, Parent: -1}, {Max: 1, TTLSec: 1, GCSec: hugeGC, Parent: 0}}}
@@ -792,5 +950,11 @@ func main() {
 		genEngHistory(o, r)
 	}
 	lap("engine")
+	if o.Thorough() || o.Search() {
+		for i := 0; i < o.Scale(0, 40, 20); i++ {
+			stress(o, o.Seed+uint64(i), 8, 300)
+		}
+		lap("stress")
+	}
 	o.Finish()
 }
